@@ -44,7 +44,7 @@ FsOfJson(j) ==
 NoCall == [fn |-> "none"]
 
 InitG == [scen |-> "", mode |-> "clean", src |-> <<>>, snap |-> <<>>, partial |-> {}, calls |-> <<>>,
-          saved |-> <<>>, healthy |-> EmptyFs, damaged |-> FALSE, dmgdel |-> FALSE]
+          saved |-> <<>>, healthy |-> EmptyFs, damaged |-> FALSE, dmgdel |-> FALSE, adopt |-> FALSE]
 
 V(mon, detail) == {<<g.scen, mon, l, ToString(detail)>>}
 If(c, S) == IF c THEN S ELSE {}
@@ -266,7 +266,8 @@ ListMonitors(r) ==
   \cup If(judged /\ HeadOK(fs, b) /\ r.res # "ok", {<<"ListFailed", <<b, r.res>> >>})
   \cup If(judged /\ r.res = "ok" /\ ~StrictlyIncreasing(r.entries), {<<"ListingNotIncreasing", b>>})
   \cup If(judged /\ r.res = "ok" /\ HeadOK(fs, b) /\ r.entries # Listing(fs, b, r.subtree, SeqRange(r.match)),
-          {<<"ListingDiffers", b>>})
+          {<<"ListingDiffers", <<b, [i \in 1..Len(r.entries) |-> r.entries[i].p],
+                                  LET x == Listing(fs, b, r.subtree, SeqRange(r.match)) IN [i \in 1..Len(x) |-> x[i].p]>> >>})
 
 \* damage matters when some version that existed no longer restores to what it did
 DamageMatters(h, f) ==
@@ -300,15 +301,21 @@ DoObs(r) ==
                      [] r.what = "versions" -> VersionsMonitors(r)
                      [] OTHER -> {})}
 
+\* The independent projection of the archive directory must equal the state rebuilt verb by
+\* verb -- except right after the harness itself changed the directory (damage, layout).
 DoFsck(r) ==
     LET j == FsOfJson(r.fs) IN
     /\ fs' = j
-    /\ g' = g
-    /\ viol' = viol \cup If(j # fs, V("BINDING", <<"fs-differs">>))
+    /\ g' = [g EXCEPT !.adopt = FALSE]
+    /\ viol' = viol \cup If(j # fs /\ ~g.adopt, V("BINDING", <<"fs-differs">>))
+
+DoLayout(r) ==
+    /\ g' = [g EXCEPT !.adopt = TRUE]
+    /\ UNCHANGED <<fs, viol>>
 
 DoDamage(r) ==
     /\ g' = [g EXCEPT !.healthy = IF g.damaged THEN @ ELSE fs, !.damaged = TRUE,
-                      !.dmgdel = r.how = "delete"]
+                      !.dmgdel = r.how = "delete", !.adopt = TRUE]
     /\ UNCHANGED <<fs, viol>>
 
 DoSave(r) ==
@@ -343,6 +350,7 @@ Next ==
          [] r.ev = "obs"      -> DoObs(r)
          [] r.ev = "fsck"     -> DoFsck(r)
          [] r.ev = "damage"   -> DoDamage(r)
+         [] r.ev = "layout"   -> DoLayout(r)
          [] r.ev = "save"     -> DoSave(r)
          [] r.ev = "reset"    -> DoReset(r)
          [] r.ev = "unsave"   -> DoUnsave(r)
